@@ -133,15 +133,19 @@ func c13Gen(g *hx.Gen) {
 		}
 		ac := g.Chance(0.4)
 		var ops []string
-		cycles := g.Pick(1, 1, 2)
+		cycles := g.Pick(1, 1, 2, 2, 3)
+		total := 0
 		for cy := 0; cy < cycles; cy++ {
 			pulls := cnt + 1
 			if g.Chance(0.25) {
 				pulls = g.Intn(cnt + 1)
 			}
 			ops = c11Cycle(g, ops, c, ty, cnt, pulls, true, g.Pick(4, 50))
+			total += cnt
+			cnt = g.Pick(cnt, g.Range(1, 3)*c+g.Pick(0, 1), g.Intn(c+1))
 		}
-		fault := fmt.Sprintf("%s:%d", c13Points[g.Intn(len(c13Points))], g.Intn(cnt+1))
+		// the fault may fall into any cycle of the history
+		fault := fmt.Sprintf("%s:%d", c13Points[g.Intn(len(c13Points))], g.Intn(total+1))
 		g.Case(c13Line(true, c, ac, false, ty, ops, c13Sched(g, c, ac, ops, 2), fault))
 	}
 	// (3) residue of the temporary directory after fault-free histories, both modes
